@@ -23,6 +23,8 @@ sys.path.insert(0, str(VERIF))
 
 def job(a):
     sid, prop, repo = a
+    patch_file = sid if os.path.isfile(sid) else str(
+        VERIF / 'seeded' / sid / 'patch.diff')
     from sa.selftest.driver import make_copy, _scratch_root
     from sa.run import analyse
     from sa.core.loader import AnalysisError
@@ -30,12 +32,11 @@ def job(a):
     try:
         make_copy(repo, root)
         r = subprocess.run(['git', 'apply', '--unsafe-paths',
-                            f'--directory={root}',
-                            str(VERIF / 'seeded' / sid / 'patch.diff')],
+                            f'--directory={root}', patch_file],
                            capture_output=True, text=True, cwd=root)
         if r.returncode:
             r = subprocess.run(['patch', '-p1', '-d', root, '-i',
-                                str(VERIF / 'seeded' / sid / 'patch.diff')],
+                                patch_file],
                                capture_output=True, text=True)
             if r.returncode:
                 return sid, prop, 3, [r.stdout + r.stderr]
@@ -60,7 +61,20 @@ def main():
                     help='run every claimed check against every seed')
     ap.add_argument('--repo', default='/repo')
     ap.add_argument('-v', action='store_true')
+    ap.add_argument('--patch', help='a patch file outside seeded/')
+    ap.add_argument('--prop', help='property of --patch')
     a = ap.parse_args()
+    if a.patch:
+        props = list(CLAIMED) if a.all else [a.prop]
+        with multiprocessing.Pool(16) as pool:
+            out = pool.map(job, [(a.patch, p, a.repo) for p in props])
+        for sid, prop, code, detail in out:
+            if code or a.v:
+                print(prop, 'exit', code)
+                for d in detail[:5]:
+                    print('      ', d)
+        print('fired:', sorted(p for (_s, p, c, _d) in out if c == 1))
+        return
     seeds = sorted(p.name for p in (VERIF / 'seeded').iterdir()
                    if (p / 'patch.diff').is_file())
     if a.ids:
